@@ -11,11 +11,14 @@ import (
 
 	"github.com/ogen-go/ogen"
 	"github.com/ogen-go/ogen/jsonpointer"
+	"github.com/ogen-go/ogen/location"
 	"github.com/ogen-go/ogen/openapi"
+	"github.com/ogen-go/ogen/uri"
 )
 
 //@ use errors
 //@ use strings
+//@ use fmt
 
 // The component parsers are outside the verifier's reach and mutually recursive with the resolvers.
 // ASSUMED (induction hypothesis, as for jsonschema.parse1): they leave the resolve context balanced.
@@ -149,3 +152,71 @@ var (
 	_ openapi.RequestBody
 	_ jsonpointer.RefKey
 )
+
+var _ location.Pointer
+
+// ---------------------------------------------------------------------------
+// C12, last clause: "spec path keys are compared for duplicates modulo the same equivalence". The
+// duplicate check is a section of parsePathItems (a closure inside its loop over the sorted path keys);
+// the section is extracted MECHANICALLY on every run, verbatim, as a function of its own (dropped:
+// everything of parsePathItems outside the statements from the NormalizeEscapedPath call to the
+// `paths[id] = ptr` insert). Contract: the key a path is compared and recorded by is the identifier
+// (pathID: parameter names erased) of its NORMAL FORM - uri.NormalizeEscapedPath through its contract
+// proved under C12 - so two keys with the same normal form collide: the second one is refused.
+// ---------------------------------------------------------------------------
+
+//@ extract verifPathKeyCheck(path string, paths map[string]location.Pointer, pathsLoc location.Locator, file location.File) (rerr error)
+//@ xfrom parser.go (*parser).parsePathItems
+//@ xstmt normalized, ok := uri.NormalizeEscapedPath(path)
+//@ xupto paths[id] = ptr
+//@ xtail return nil
+
+// specKeyText: what a spec path key is compared by before parameter names are erased: its normal form
+// when it is well-escaped, else the key itself.
+func specKeyText(path string) string {
+	n, ok := uri.NormalizeEscapedPath(path)
+	if !ok {
+		return path
+	}
+	return n
+}
+
+// pathID erases parameter names ("/users/{id}" -> "/users/{}"); generic rune parser, outside the verifier.
+//@ func pathID(path string) (id string, err error)
+//@   trusted template parser (generic, ranges over runes): a deterministic function of the path
+//@   pure
+
+func specKeyID(path string) string {
+	id, _ := pathID(specKeyText(path))
+	return id
+}
+
+func specKeyBad(path string) bool {
+	_, err := pathID(specKeyText(path))
+	return err != nil
+}
+
+//@ extern func (l location.Locator) Field(key string) (loc location.Locator)
+//@   pure
+//@ extern func (l location.Locator) Pointer(file location.File) (p location.Pointer)
+//@   pure
+//@ extern func (e *location.MultiError) ReportPtr(ptr location.Pointer, msg string)
+
+//@ func verifPathKeyCheck(path string, paths map[string]location.Pointer, pathsLoc location.Locator, file location.File) (rerr error)
+//@   requires m: paths != nil
+//@   modifies paths[*]
+//@   ensures bad:    specKeyBad(path) ==> rerr != nil && (forall k string :: vHas(paths, k) == vHas(old(paths), k))
+//@   ensures dup:    !specKeyBad(path) && vHas(old(paths), specKeyID(path)) ==> rerr != nil && (forall k string :: vHas(paths, k) == vHas(old(paths), k))
+//@   ensures record: !specKeyBad(path) && !vHas(old(paths), specKeyID(path)) ==> rerr == nil && (forall k string :: vHas(paths, k) == (vHas(old(paths), k) || k == specKeyID(path)))
+
+// The property sentence itself: two path keys with the same normal form (differing only in hex case or in
+// needless escaping) cannot both be accepted.
+//@ func verifTwoPathKeys(a string, b string, paths map[string]location.Pointer, pathsLoc location.Locator, file location.File) (first error, second error)
+//@   requires m: paths != nil
+//@   modifies paths[*]
+//@   ensures collide: specKeyText(a) == specKeyText(b) && first == nil ==> second != nil
+func verifTwoPathKeys(a, b string, paths map[string]location.Pointer, pathsLoc location.Locator, file location.File) (first, second error) {
+	first = verifPathKeyCheck(a, paths, pathsLoc, file)
+	second = verifPathKeyCheck(b, paths, pathsLoc, file)
+	return first, second
+}
